@@ -68,6 +68,15 @@ def is_integer(ty):
     return any(t in ty for t in ("size_t", "unsigned", "int", "long", "short")) and not any(t in ty for t in ("*", "iterator", "<", "&&"))
 
 
+_INT_WORDS = {"unsigned", "signed", "long", "int", "short", "char", "size_t", "std::size_t", "ptrdiff_t", "std::ptrdiff_t", "ssize_t"}
+
+
+def scalar_int(ty):
+    """the type is spelled as a builtin integer type (is_integer() goes by substrings and also accepts e.g. a record `Point`)"""
+    words = (ty or "").replace("const ", " ").replace("volatile ", " ").split()
+    return bool(words) and all(w in _INT_WORDS or re.fullmatch(r"(std::)?u?int(_fast|_least)?\d+_t", w) for w in words)
+
+
 _MODS = {}
 
 
@@ -207,7 +216,7 @@ def subscript_only_arrays(*fns):
                 continue
             d = y["ref"]["id"]
             x, par = up(y)
-            if par is None or par["k"] != "ArraySubscriptExpr" or kids(par)[0] is not x or not is_integer(par.get("ty")):
+            if par is None or par["k"] != "ArraySubscriptExpr" or kids(par)[0] is not x or not scalar_int(par.get("ty")):
                 arrays.discard(d)
                 continue
             x, par = up(par)
@@ -217,8 +226,8 @@ def subscript_only_arrays(*fns):
                     (par["k"] == "VarDecl" and (par.get("ty") or "").rstrip().endswith("&")):
                 arrays.discard(d)
             elif "callee" in par:
-                # bound to a reference parameter?  told by the parameter type of a project function; a library function is
-                # taken not to have integer out-parameters (as in modifications())
+                # bound to a reference parameter?  told by the parameter type of a project function; of the library only
+                # operators, conversions and a few functions that are known to take values are accepted
                 callee = tu.by_did.get(par["callee"].get("did")) if tu is not None else None
                 if callee is not None:
                     member = par.get("member_call") or (par["k"] == "CXXOperatorCallExpr" and len(kids(par)) == len(callee.params) + 1)
@@ -227,6 +236,10 @@ def subscript_only_arrays(*fns):
                     pty = (callee.params[i].get("ty") or "").rstrip() if i is not None and i < len(callee.params) else "&"
                     if pty.endswith("&") and not pty.endswith("&&") and not pty.startswith("const "):
                         arrays.discard(d)
+                elif not (par["k"] in ("CXXOperatorCallExpr", "CXXConstructExpr", "CXXTemporaryObjectExpr") and not assign_op(par.get("op") or "") and
+                          par.get("op") not in ("++", "--")) and par["callee"]["name"] not in ("min", "max", "clamp", "next", "prev", "abs") and \
+                        par["callee"].get("qname") != "std::swap":          # std::swap is evaluated by SlabEval
+                    arrays.discard(d)
         for g in fns:               # an array that a lambda captures is used in a way that is not followed here
             if g is not None and g is not f:
                 arrays -= {y["ref"]["id"] for y in g.nodes() if y["k"] == "DeclRefExpr"}
@@ -240,6 +253,7 @@ class ObjSkel(skel.Skel):
     was known about its parts; an object with known parts that is handed to a call which cannot be followed is undecidable."""
     own_arrays = frozenset()
     CONST_CALLS = ("size", "empty", "begin", "end", "cbegin", "cend")
+    VALUE_CALLS = ("min", "max", "clamp", "next", "prev", "abs", "distance", "make_pair")
 
     def lvalue(self, e):
         e0 = strip_casts(e)
@@ -272,7 +286,7 @@ class ObjSkel(skel.Skel):
                 return self.snapshot(key)
             return self.unknown(e0, self) if self.unknown else None
         r = super().ev(e)
-        if r is None and e0 is not None and (e0["k"] == "DeclRefExpr" or match.index_parts(e0)) and not is_integer(e0.get("ty")) and \
+        if r is None and e0 is not None and (e0["k"] == "DeclRefExpr" or match.index_parts(e0)) and not scalar_int(e0.get("ty")) and \
                 any(isinstance(k, tuple) and len(k) == 3 and k[0] == "member" for k in self.env):
             key = self.lvalue(e0)            # an object whose data members are known: its value is the values of its members
             if key is not None and self.has_parts(key):
@@ -329,6 +343,16 @@ class ObjSkel(skel.Skel):
                     for top in (key_root(k), key_root(v[1]) if isinstance(v, tuple) and len(v) == 2 and v[0] == "ptr" else None):
                         if top is not None and any(k2[0] == "member" and key_root(k2) == top for k2 in self.env if isinstance(k2, tuple) and len(k2) == 3):
                             raise undecided(self.fn, e, "an object whose data members are followed is handed to a call that cannot be followed")
+            # a place whose value is followed, handed over as it stands: whether the call changes it (std::swap, std::fill, an
+            # out-parameter) is not known - except for operators, conversions and a few functions known to take values
+            if e["k"] not in ("CXXOperatorCallExpr", "CXXConstructExpr", "CXXTemporaryObjectExpr") and e["callee"]["name"] not in self.VALUE_CALLS:
+                for a in args:
+                    a0 = strip_casts(a)
+                    if a0 is None or not (a0["k"] in ("DeclRefExpr", "MemberExpr", "ArraySubscriptExpr") or match.index_parts(a0) or match.deref_of(a0)):
+                        continue
+                    k = self.lvalue(a0)
+                    if k is not None and (self.env.get(k) is not None or self.has_parts(k)):
+                        raise undecided(self.fn, e, "a variable whose value is followed is handed to a call that cannot be followed")
         return r
 
 
@@ -477,7 +501,8 @@ TGT = 1000000            # stands for the output iterator `target`
 
 
 def int_vector_stores(fn):
-    """stores `vec[j] = expr` into local std::vector<integral> in fn -> {vec did: [store nodes]}"""
+    """stores `vec[j] = expr` into local std::vector<integral> in fn, and stores into a data member of an element of a local
+    container of records (vec[j].f = expr, also through a reference / pointer local that names vec[j]) -> {vec did: [store nodes]}"""
     stores = {}
     for z in fn.nodes():
         b = match.binop(z, ("=",)) if z["k"] in ("BinaryOperator", "CXXOperatorCallExpr") else None
@@ -605,7 +630,8 @@ def part_stores(*fns):
 class SlabEval:
     """evaluates the per-slab integer quantities of parallel_multiway_merge_base on one point (L, S, P): a slab holding
     L elements whose first output position is P, for a requested size S.  The differences of chunk cursors are the data:
-    chunk.first - sequence.first sums to P, chunk.second - chunk.first sums to L (one sequence)."""
+    chunk.first - sequence.first sums to P, chunk.second - chunk.first sums to L (one sequence).  The quantities may live in
+    vectors of integers, in the data members of a vector of records, in a record or an array of the worker's own (ObjSkel)."""
 
     def __init__(self, fn, lam, sizep, idxvar, targetp=None, table=None):
         self.fn, self.lam, self.sizep, self.idxvar, self.targetp, self.table = fn, lam, sizep, idxvar, targetp, table
@@ -693,6 +719,16 @@ class SlabEval:
                 v, lo, hi = [sk.ev(x) for x in kids(e)]
                 if all(isinstance(x, int) and not isinstance(x, bool) for x in (v, lo, hi)) and lo <= hi:
                     return min(max(v, lo), hi)
+                return None
+            if "callee" in e and e["callee"].get("qname") == "std::advance" and len(kids(e)) == 2 and not e.get("member_call"):
+                key, t, n = sk.lvalue(kids(e)[0]), sk.ev(kids(e)[0]), sk.ev(kids(e)[1])         # std::advance(it, n) is it += n
+                sk.store(key, t + n if all(isinstance(x, int) and not isinstance(x, bool) for x in (t, n)) else None)
+                return None
+            if "callee" in e and e["callee"].get("qname") == "std::swap" and len(kids(e)) == 2 and not e.get("member_call"):
+                ka, kb = sk.lvalue(kids(e)[0]), sk.lvalue(kids(e)[1])
+                va, vb = sk.ev(kids(e)[0]), sk.ev(kids(e)[1])
+                sk.store(ka, vb)
+                sk.store(kb, va)
                 return None
             if "callee" in e and e["callee"]["name"] == "next" and len(kids(e)) == 2 and not e.get("member_call"):
                 t, n = sk.ev(kids(e)[0]), sk.ev(kids(e)[1])
@@ -877,7 +913,7 @@ def zero_length(ck, fn, g, tag, sizep, splits):
         v = decls.get(d)
         ty = (v.get("ty") or "").replace("const ", "").strip() if v is not None else ""
         par = fn.parent(v) if v is not None else None
-        if v is None or d in by_ref or not (ty == "bool" or is_integer(ty)) or par is None or par["k"] != "DeclStmt" or g.pos(par) is None:
+        if v is None or d in by_ref or not (ty == "bool" or scalar_int(ty)) or par is None or par["k"] != "DeclStmt" or g.pos(par) is None:
             continue
         mods = modifications(fn, d)
         if all(m["k"] == "BinaryOperator" and m.get("op") == "=" and ref_of(kids(m)[0]) == d and g.pos(m) is not None for m in mods):
